@@ -94,6 +94,21 @@ def xor_finding():
         return True
 
 
+def preserve_finding():
+    import utype
+    from utype import Rule
+    from utype.parser.rule import LogicalType
+    from utype.utils.transform import type_transform
+    U = LogicalType.combine("|", Rule.annotate(tuple, int, bool), Rule.annotate(set, Rule.annotate(int, constraints=dict(const=5))))
+    T = Rule.annotate(list, U)
+    o = utype.Options(no_data_loss=True, invalid_items="preserve")
+    r1 = type_transform([[True, 5, True]], T, o)
+    try:
+        return type_transform(r1, T, o) != r1
+    except Exception:
+        return True
+
+
 def idem_suite(res, tier, seed):
     rng = random.Random(seed * 17 + 303)
     n = 6000 if tier == "quick" else 100000
@@ -151,7 +166,7 @@ def main(tier, seed):
     n = 3000 if tier == "quick" else 60000
     cases = [parsesuite.gen_case(rng) if i % 2 else parsesuite.gen_union_case(rng) for i in range(n)]
     parsesuite.run_suite(res, cases, "parse")
-    findings.replay_all(res, PID, {"C03-carry": carry_finding, "C03-and-hetero": and_finding, "C03-xor-output": xor_finding})
+    findings.replay_all(res, PID, {"C03-carry": carry_finding, "C03-and-hetero": and_finding, "C03-xor-output": xor_finding, "C03-preserve": preserve_finding})
     return core.finish(res, "make -C coq Props/C03.vo && coqc (Print Assumptions audit)", "see suites", search=None,
                        level_note="lax validators: theorems on the translated source (Gen/Constraints.v). Idempotence of "
                                   "whole types (containers, unions, data classes) is NOT yet a theorem: it is carried by the "
